@@ -209,9 +209,9 @@ func (c07) Exec(sc *sim.Scenario, env *sim.Env) *sim.Violation {
 		}
 		var mc *Machine
 		if kind == 0 {
-			mc = NewBusMachine(0, mem)
+			mc = NewBusMachine(env, 0, mem)
 		} else {
-			mc = NewAltMachine(0, mem, 0, 0)
+			mc = NewAltMachine(env, 0, mem, 0, 0)
 		}
 		cpu := mc.CPU
 		a := uint16(sc.C("a")) & 7
